@@ -1,4 +1,5 @@
-import NauyacaVerif.Srv.ConnProof
+import NauyacaVerif.Srv.ConnMore
+import NauyacaVerif.Srv.SegProof
 import NauyacaVerif.Gen.Params
 
 /-! # C01  Exactly one well-formed Gemini response per connection -/
@@ -30,4 +31,29 @@ theorem nothing_after_close (cfg : Cfg) (s : St) (e : Ev) (hi : Inv cfg s) (hs :
   have hd := hi.sentDone hs
   cases e <;> simp [step, hd, hs, respondFixed, respond, respondWith]
   all_goals (try split) <;> simp_all
+
+/-- exactly one: once the request is decided and no task is pending (phase `done`) and the peer is still there,
+    one well-formed response followed by close HAS been written -/
+theorem trace_progress (cfg : Cfg) (evs : List Ev) (hd : (run cfg evs).phase = .done) (hl : (run cfg evs).lost = false) :
+    ∃ ws, (run cfg evs).out = ws ++ [.close] ∧ WFWrites ws := done_responded cfg evs hd hl
+
+/-- a full request line, or more than 1024 bytes without CRLF, is a decision point however it was split
+    into reads: the connection leaves the line-waiting phase -/
+theorem line_decides (cfg : Cfg) (c : Bytes) (cs : List Bytes)
+    (h : (findCRLF (c ++ cs.flatten)).isSome ∨ (c ++ cs.flatten).length > maxRequest) :
+    (feedAll cfg {} (c :: cs)).phase ≠ .awaitLine := by
+  rw [(Srv.seg_indep_observables cfg c cs).2.2.2.2.2]
+  exact Srv.line_decides cfg _ h
+
+/-- nothing at all reaches a client that disconnected before a response was written -/
+theorem lost_silent (cfg : Cfg) (pre post : List Ev) (h : (run cfg pre).out = []) :
+    (run cfg (pre ++ [.lost] ++ post)).out = [] := lost_first_silent cfg pre post h
+
+/-- the fixed response strings of the code are covered by the renderer: every fixed meta extracted from
+    the source is free of CR and LF and short -/
+theorem fixedMetas_clean : ∀ m ∈ Gen.fixedMetas, m.length ≤ 1024 ∧ 13 ∉ m ∧ 10 ∉ m := by decide
+
+/-- non-vacuity: a concrete run ends in phase `done`, connected, with a response -/
+example : (run { mw := false, upload := false, handler := .syncRaise, env := asciiEnv }
+            [.data [103, 13, 10]]).phase = .done := by decide
 end NauyacaVerif.C01
